@@ -97,7 +97,7 @@ def gen_case(rng: common.Rng, in_scope: bool = True) -> dict[str, Any]:
             outs[name] = vals
             scalar[name] = dim == 1 and rng.chance(0.5)
         hist.append({"x": list(x), "outs": outs, "scalar": scalar})
-    return {
+    case = {
         "obj_dim": obj_dim,
         "minimize": rng.chance(0.6),
         "standardized": rng.chance(0.4),
@@ -106,6 +106,15 @@ def gen_case(rng: common.Rng, in_scope: bool = True) -> dict[str, Any]:
         "cstrs": cstrs,
         "hist": hist,
     }
+    # "At any time": the solution is also queried WHILE the history is being recorded (after every store, and
+    # between the store of the objective and the store of the other outputs of the same point, as an
+    # evaluation in progress does); what is observed at the end must still be the answer for the final history.
+    if rng.chance(0.5):
+        case["queries_between"] = True
+        for e in hist:
+            if rng.chance(0.5):
+                e["split"] = rng.pick(["f-first", "f-last", "one-by-one"])
+    return case
 
 
 def case_line(case: dict[str, Any]) -> str:
@@ -145,6 +154,7 @@ def build_problem(case: dict[str, Any]):
     pb.use_standardized_objective = bool(case["standardized"])
     pb.preprocess_functions(is_function_input_normalized=False)
     obj_db_name = pb.objective.name
+    between = bool(case.get("queries_between"))
     for e in case["hist"]:
         vals = {}
         for name, v in e["outs"].items():
@@ -155,8 +165,43 @@ def build_problem(case: dict[str, Any]):
             else:
                 fl = [float(Fraction(t)) for t in v]
                 vals[key] = fl[0] if e["scalar"].get(name) else np.array(fl)
-        pb.database.store(np.array(e["x"], dtype=float), vals)
+        x = np.array(e["x"], dtype=float)
+        split = e.get("split") if between else None
+        if split and len(vals) > 1:
+            names = list(vals)
+            if split == "f-first" and obj_db_name in vals:
+                groups = [[obj_db_name], [n for n in names if n != obj_db_name]]
+            elif split == "f-last" and obj_db_name in vals:
+                groups = [[n for n in names if n != obj_db_name], [obj_db_name]]
+            else:
+                groups = [[n] for n in names]
+            for g in groups:
+                pb.database.store(x, {n: vals[n] for n in g})
+                _query_solution(pb)
+        else:
+            pb.database.store(x, vals)
+            if between:
+                _query_solution(pb)
     return pb, obj_db_name
+
+
+def _query_solution(pb) -> None:
+    """Every public way of asking for the current solution (results discarded: these are the queries a
+    progress display, a stop criterion or a user makes while the run is going on)."""
+    from gemseo.algos.optimization_result import OptimizationResult
+
+    h = pb.history
+    for q in (
+        lambda: h.optimum,
+        lambda: h.feasible_points,
+        lambda: h.last_point,
+        lambda: OptimizationResult.from_optimization_problem(pb),
+        lambda: pb.optimum,
+    ):
+        try:
+            q()
+        except Exception:  # noqa: BLE001, S110
+            pass
 
 
 def find_index(case, x) -> str:
@@ -467,6 +512,10 @@ def check_cases(res: Result, cases: list[dict[str, Any]], in_scope: bool) -> Non
         res.count(f"len={min(n, 9)}")
         res.count(f"ncstr={len(case['cstrs'])}")
         res.count("feasible-case" if "feas=1" in obs["line"] else ("empty" if obs.get("empty") else "infeasible-case"))
+        if case.get("queries_between"):
+            res.count("queried-while-recording")
+            if any(e.get("split") for e in case["hist"]):
+                res.count("queried-between-outputs-of-one-point")
         if n >= 2:
             res.nontrivial(line)
         res.sample({"protocol_line": line, "impl": obs["line"], "model": m})
